@@ -505,9 +505,9 @@ func c17Head(base, hdr, ctor, m, ct, tmpl string) string {
 }
 
 func c17Gen(tier string, rng *rand.Rand, emit func(string)) map[string]interface{} {
-	nRandom := 12000
+	nRandom := 30000
 	if tier == "thorough" {
-		nRandom = 120000
+		nRandom = 400000
 	}
 	for _, b := range c17Bases {
 		if u, err := url.Parse(b); err != nil || u.String() != b {
